@@ -27,7 +27,9 @@ META = {
 }
 
 SUBTAGS = ('*', 'de', 'en', 'x', 'a', 'latn', 'DE', '1996', 'ch')
-RANGE_PROBES = ('', '*', 'en', 'de', 'de-*', '*-DE', 'de-DE', 'x', 'en-US', 'fr', 'DE-de', '*-*', 'de-*-DE')
+# the last five end in an empty subtag (possibly followed by wildcards): an empty subtag equals no subtag of a tag
+RANGE_PROBES = ('', '*', 'en', 'de', 'de-*', '*-DE', 'de-DE', 'x', 'en-US', 'fr', 'DE-de', '*-*', 'de-*-DE',
+                'de-', 'en-', 'de--*', '*-', '-')
 
 
 def all_seqs(alphabet, maxlen):
@@ -276,6 +278,10 @@ def shard(ctx):
         if ch.p(0.3):
             # random filter pairs, incl. multi-range lists
             ranges = ['-'.join(rand_subtag(ch) for _ in range(ch.i(1, 6))) for _ in range(ch.i(1, 3))]
+            if ch.p(0.15):
+                # a dangling dash (an empty last subtag), possibly followed by wildcards
+                k_ = ch.i(0, len(ranges) - 1)
+                ranges[k_] = ranges[k_] + ch.pick(('-', '--*', '-*-', '--'))
             base = ranges[0].replace('*', 'zz').split('-')
             tags = []
             for _ in range(6):
